@@ -31,6 +31,7 @@ from __future__ import annotations
 import base64
 import json
 import os
+import random
 import shutil
 import tempfile
 
@@ -510,14 +511,17 @@ class _RefAccessoryCtx:
         return out
 
 
-def _bridge_history(ctx, rep, rng, classes, schemas, idx, na, ns, nc):
-    """(ii) the real get_accessory_info on a reference-encoded bridge database with byte-identical accessories."""
+def _bridge_history(ctx, rep, bseed, classes, schemas, idx, na, ns, nc):
+    """(ii) the real get_accessory_info on a reference-encoded bridge database with byte-identical accessories.
+    Everything random comes from `bseed` (stored in the replay object, so the execution can be repeated)."""
     import asyncio
     from aiohomekit.controller.coap.connection import CoAPHomeKitConnection
+    rng = random.Random(bseed)
     c = idx["Pdu09Database"]
     val = _bridge_value(rng, schemas, idx, na, ns, nc)
     wire = S.ref_encode(schemas, c, val, "acc", "decl")
-    slim = {"c": c, "class": schemas[c - 1]["name"], "mode": "acc", "pol": "decl", "val": val, "wire": wire}
+    slim = {"c": c, "class": schemas[c - 1]["name"], "mode": "acc", "pol": "decl", "val": val, "wire": wire, "origin": "driver",
+            "src": {"bridge": [na, ns, nc], "bseed": bseed}}
     ctx.case(("bridge", na, ns, nc, json.dumps(val)))
 
     def fld(name, field):
@@ -568,8 +572,219 @@ def _bridge_history(ctx, rep, rng, classes, schemas, idx, na, ns, nc):
         ops.append(["D"])
         infos.append(classes[c - 1].decode(wire))
         ops.append(["O", len(infos), S.node_of(classes, schemas, c, infos[-1])])
-    return {"c": c, "wire": list(wire), "ops": ops}
+    return {"c": c, "wire": list(wire), "ops": ops, "slim": slim}
 
+
+
+def _make_char_access(ctx, rep, classes, schemas, array_wrappers, struct_chars):
+    """Struct-valued characteristics read through the model Characteristic.value (incl. the bare `array` form)."""
+    def char_access(slim, inst):
+        c = slim["c"]
+        if c in array_wrappers:                       # array-valued characteristic: items joined by separators
+            uuid, cls = array_wrappers[c]
+            joined = b"".join(v for _, v in rtlv.dec(slim["wire"]))
+            want = [S.to_instance(classes, schemas, classes.index(cls) + 1, it) for it in (slim["val"][0][0] if slim["val"][0] else [])]
+            try:
+                ch = _model_char(uuid, joined)
+                got = ch.value
+            except Exception as ex:  # noqa: BLE001
+                rep.fail("array-valued characteristic: value raised", slim, f"{type(ex).__name__}: {ex}")
+                return
+            if not isinstance(got, (list, tuple)) or list(got) != want:
+                rep.fail("array-valued characteristic: value != encoded items", slim, f"{got!r:.200} != {want!r:.200}")
+                return
+            for it in got:                            # the consumer edits what it read ...
+                S.scribble(ctx.rng, classes, schemas, classes.index(cls) + 1, it)
+            if isinstance(got, list):
+                got.clear()
+            again = ch.value                          # ... the accessory's value has not changed
+            if not isinstance(again, (list, tuple)) or list(again) != want:
+                rep.fail("array-valued characteristic: 2nd read after the 1st result was edited != encoded items", slim,
+                         f"{again!r:.200} != {want!r:.200}")
+            return
+        for uuid, is_array in struct_chars.get(c, ()):
+            if is_array or slim["mode"] != "lib":
+                continue
+            try:
+                ch = _model_char(uuid, slim["wire"])
+                got = ch.value
+            except Exception as ex:  # noqa: BLE001
+                rep.fail("struct-valued characteristic: value raised", slim, f"{type(ex).__name__}: {ex}")
+                continue
+            if got != inst:
+                rep.fail("struct-valued characteristic: value != encoded message", slim, f"{got!r:.200} != {inst!r:.200}")
+                continue
+            S.scribble(ctx.rng, classes, schemas, c, got)      # the consumer edits what it read (to build a write request)
+            again = ch.value
+            if again != inst:
+                rep.fail("struct-valued characteristic: 2nd read after the 1st result was edited != encoded message", slim,
+                         f"{again!r:.200} != {inst!r:.200}")
+    return char_access
+
+
+# ------------------------------------------------------------------ driver executions (re-usable by --replay)
+def _record_run(ctx, rep, classes, schemas, recs, c, mode, pol, val, label):
+    """Run the real code on one value chosen by the driver; appends the (value, bytes, decoded) record for
+    TlvStruct_Trace and returns the decoded object (None if a violation was reported directly)."""
+    cls = classes[c - 1]
+    name = schemas[c - 1]["name"]
+    slim = {"c": c, "class": name, "mode": mode, "pol": pol, "val": val, "label": label, "origin": "driver"}
+    ctx.case((name, mode, pol, json.dumps(val)))
+    inst = S.to_instance(classes, schemas, c, val)
+    if mode == "lib":
+        try:
+            enc = bytes(inst.encode())
+        except Exception as ex:  # noqa: BLE001
+            rep.fail("encode() raised", slim, f"{type(ex).__name__}: {ex}")
+            return None
+    else:
+        enc = S.ref_encode(schemas, c, val, "acc", pol)
+    slim["wire"] = enc
+    try:
+        dec = cls.decode(enc)
+        got = S.from_instance(classes, schemas, c, dec)
+    except S.Unrepresentable as ex:
+        rep.fail("decode() returned a value outside the message type", slim, str(ex))
+        return None
+    except Exception as ex:  # noqa: BLE001
+        rep.fail("decode() raised on a well-formed message", slim, f"{type(ex).__name__}: {ex} on {_short(enc)}")
+        return None
+    recs.append({"c": c, "mode": mode, "pol": pol, "val": val, "enc": list(enc), "dec": got})
+    return dec
+
+
+def _todict_checks(rep, schemas, idx, c, mode, pol, val, dec, label=""):
+    """to_dict() of decoded signatures / databases against the encoded structure (ids, types, links)."""
+    name = schemas[c - 1]["name"]
+    fnames = [f["name"] for f in schemas[c - 1]["fields"]]
+    slim = {"c": c, "class": name, "mode": mode, "pol": pol, "val": val, "origin": "driver", "label": label}
+
+    def get(nm):
+        o = val[fnames.index(nm)] if nm in fnames else []
+        return o[0] if o else None
+    try:
+        if name.endswith("ble.structs.Characteristic"):
+            pf = get("presentation_format")
+            if get("type") is None or get("instance_id") is None or get("properties") is None or get("valid_range") or get("step_value") \
+                    or pf is None or len(pf) != 7 or pf[0] not in (1, 4, 6, 8, 10, 16, 20, 25, 27):
+                return       # not a complete, self-consistent signature: to_dict() is not defined on it
+            td = dec.to_dict()
+            want = (f"{int.from_bytes(bytes(get('type')), 'little'):X}", _u16(get("instance_id")))
+            if (td.get("type"), td.get("iid")) != want:
+                rep.fail("to_dict() of the decoded characteristic signature shows another type / iid", slim,
+                         f"{(td.get('type'), td.get('iid'))} != {want}")
+        elif name.endswith("ble.structs.Service"):
+            ids = get("linked_services")
+            if ids is None:
+                return
+            td = dec.to_dict()
+            want = [_u16(x) for x in ids]
+            if td.get("linked", []) != want:
+                rep.fail("to_dict() of the decoded service signature shows other links", slim, f"{td.get('linked')} != {want}")
+        elif name.endswith("Pdu09Database") and label.startswith("database"):     # complete databases only
+            want = _db_projection(schemas, idx, val)
+            got = _project_to_dict(dec.to_dict())
+            if got != want:
+                rep.fail("to_dict() of the decoded database differs from the encoded structure", slim,
+                         f"{str(got)[:200]} != {str(want)[:200]}")
+    except KeyError:
+        return                       # the value lacks a field to_dict() needs: not a conformant signature / database
+    except Exception as ex:  # noqa: BLE001
+        rep.fail("to_dict() of the decoded message raised", slim, f"{type(ex).__name__}: {ex}")
+
+
+def _trace_check(ctx, rep, tmp, schemas, schema_file, jvm, recs):
+    """Recorded encode/decode runs -> TlvStruct_Trace; every rejected record is reported."""
+    if not recs:
+        return
+    tf = os.path.join(tmp, "trace.ndjson")
+    with open(tf, "w") as f:
+        for r in recs:
+            f.write(json.dumps(r) + "\n")
+    vf = os.path.join(tmp, "verdicts.ndjson")
+    res = ctx.tlc("codec/TlvStruct_Trace", "TlvStruct_Trace.cfg",
+                  env={"TRACE_FILE": tf, "SCHEMA_FILE": schema_file, "VERDICTS_OUT": vf, **jvm},
+                  expect_violation=True, require_cover=False, workers=4, timeout=1500,
+                  label="trace validation of recorded encode/decode runs")
+    if res.ok:
+        if os.path.exists(vf) and open(vf).read().strip():
+            raise MachineryError("TlvStruct_Trace accepted every record but exported rejected ones")
+        ctx.trace_ok(len(recs))
+        return
+    if res.violation["name"] == "InDomain":
+        raise MachineryError(f"driver produced a value outside the property's domain: {res.violation['trace'][:2000]}")
+    from harness import tlc as T
+    rejected = []
+    if os.path.exists(vf):
+        rejected = [json.loads(line) for line in open(vf) if line.strip()]
+    if not rejected:                       # fall back to the counterexample TLC printed
+        ce = T.parse_counterexample(res.violation["trace"])
+        tid = ce[-1][1].get("tid") if ce else None
+        if not isinstance(tid, int):
+            raise MachineryError(f"trace validation failed without a record id: {res.violation['name']}")
+        rejected = [{"tid": tid, "enc": res.violation["name"] != "EncoderConforms",
+                     "dec": res.violation["name"] != "DecoderConforms", "rt": res.violation["name"] != "StructRoundTrip"}]
+    for v in rejected:
+        bad = recs[v["tid"] - 1]
+        what = " and ".join(w for w, ok in (("wire image differs from the specification's", v["enc"]),
+                                            ("decoded value differs from the specification's", v["dec"]),
+                                            ("the specification's own round trip fails for this class", v.get("rt", True))) if not ok)
+        rep.fail(f"recorded run rejected by TlvStruct_Trace ({what})",
+                 {"c": bad["c"], "class": schemas[bad["c"] - 1]["name"], "mode": bad["mode"], "pol": bad["pol"],
+                  "val": bad["val"], "wire": bytes(bad["enc"]), "dec": bad["dec"], "origin": "driver"},
+                 f"producer {bad['mode']}, value {str(bad['val'])[:160]}, bytes {_short(bad['enc'])}, decoded {str(bad['dec'])[:160]}")
+    rep.flush()
+    ctx.trace_ok(len(recs) - len(rejected))
+
+
+def _hist_check(ctx, rep, tmp, schema_file, jvm, hrecs):
+    """Recorded decode histories -> TlvStructHist_Trace; every rejected history is reported."""
+    if not hrecs:
+        return
+    hf = os.path.join(tmp, "hist.ndjson")
+    hv = os.path.join(tmp, "hist_verdicts.ndjson")
+    with open(hf, "w") as f:
+        for r in hrecs:
+            f.write(json.dumps({"c": r["c"], "wire": r["wire"], "ops": r["ops"]}) + "\n")
+    res = ctx.tlc("codec/TlvStructHist_Trace", "TlvStructHist_Trace.cfg",
+                  env={"TRACE_FILE": hf, "SCHEMA_FILE": schema_file, "VERDICTS_OUT": hv, **jvm},
+                  expect_violation=True, require_cover=False, workers=4, timeout=1500,
+                  label="trace validation of decode histories")
+    bad = [json.loads(line) for line in open(hv) if line.strip()] if os.path.exists(hv) else []
+    if res.ok:
+        if bad:
+            raise MachineryError("TlvStructHist_Trace accepted every history but exported rejected ones")
+        ctx.trace_ok(len(hrecs))
+        return
+    if not bad:
+        from harness import tlc as T
+        ce = T.parse_counterexample(res.violation["trace"])
+        tid = ce[-1][1].get("tid") if ce else None
+        if not isinstance(tid, int):
+            raise MachineryError(f"history validation failed without a record id: {res.violation['name']}")
+        bad = [{"tid": tid, "bad": 0}]
+    for v in bad:
+        r = hrecs[v["tid"] - 1]
+        upto = [op if op[0] != "O" else ["O", op[1], "..."] for op in r["ops"][:max(v["bad"], 1)]]
+        seen = r["ops"][v["bad"] - 1][2] if v["bad"] else None
+        rep.fail("decode history rejected by TlvStructHist_Trace (what is read through a result is not the decoded value "
+                 "plus the writes made through that result)", r["slim"],
+                 f"history {json.dumps(upto)[:500]}; observed {json.dumps(seen)[:300]}")
+    rep.flush()
+    ctx.trace_ok(len(hrecs) - len(bad))
+
+
+def _random_history(ctx, rep, classes, schemas, c, mode, val, hseed):
+    """One seeded decode / write / observe history of a value; everything random comes from `hseed`."""
+    wire = S.ref_encode(schemas, c, val, mode, "decl")
+    slim = {"c": c, "class": schemas[c - 1]["name"], "mode": mode, "pol": "decl", "val": val, "wire": wire, "origin": "driver",
+            "src": {"history": hseed}}
+    hr = random.Random(hseed)
+    try:
+        return {"c": c, "wire": list(wire), "ops": _history(hr, classes, schemas, c, wire, hr.randrange(1, 4)), "slim": slim}
+    except Exception as ex:  # noqa: BLE001
+        rep.fail("decode / write / decode history raised", slim, f"{type(ex).__name__}: {ex}")
+        return None
 
 
 # ------------------------------------------------------------------ the check
@@ -667,47 +882,7 @@ def run(ctx):
         rep = _Reporter(ctx, schemas)
         struct_chars = {classes.index(cls) + 1: uses for cls, uses in structs.items() if cls in classes}
 
-        def char_access(slim, inst):
-            c = slim["c"]
-            if c in array_wrappers:                       # array-valued characteristic: items joined by separators
-                uuid, cls = array_wrappers[c]
-                joined = b"".join(v for _, v in rtlv.dec(slim["wire"]))
-                want = [S.to_instance(classes, schemas, classes.index(cls) + 1, it) for it in (slim["val"][0][0] if slim["val"][0] else [])]
-                try:
-                    ch = _model_char(uuid, joined)
-                    got = ch.value
-                except Exception as ex:  # noqa: BLE001
-                    rep.fail("array-valued characteristic: value raised", slim, f"{type(ex).__name__}: {ex}")
-                    return
-                if not isinstance(got, (list, tuple)) or list(got) != want:
-                    rep.fail("array-valued characteristic: value != encoded items", slim, f"{got!r:.200} != {want!r:.200}")
-                    return
-                for it in got:                            # the consumer edits what it read ...
-                    S.scribble(ctx.rng, classes, schemas, classes.index(cls) + 1, it)
-                if isinstance(got, list):
-                    got.clear()
-                again = ch.value                          # ... the accessory's value has not changed
-                if not isinstance(again, (list, tuple)) or list(again) != want:
-                    rep.fail("array-valued characteristic: 2nd read after the 1st result was edited != encoded items", slim,
-                             f"{again!r:.200} != {want!r:.200}")
-                return
-            for uuid, is_array in struct_chars.get(c, ()):
-                if is_array or slim["mode"] != "lib":
-                    continue
-                try:
-                    ch = _model_char(uuid, slim["wire"])
-                    got = ch.value
-                except Exception as ex:  # noqa: BLE001
-                    rep.fail("struct-valued characteristic: value raised", slim, f"{type(ex).__name__}: {ex}")
-                    continue
-                if got != inst:
-                    rep.fail("struct-valued characteristic: value != encoded message", slim, f"{got!r:.200} != {inst!r:.200}")
-                    continue
-                S.scribble(ctx.rng, classes, schemas, c, got)      # the consumer edits what it read (to build a write request)
-                again = ch.value
-                if again != inst:
-                    rep.fail("struct-valued characteristic: 2nd read after the 1st result was edited != encoded message", slim,
-                             f"{again!r:.200} != {inst!r:.200}")
+        char_access = _make_char_access(ctx, rep, classes, schemas, array_wrappers, struct_chars)
 
         n = 0
         for line in open(out):
@@ -727,31 +902,9 @@ def run(ctx):
         rng = ctx.rng
 
         def record(c, mode, pol, val, label):
-            """Run the real code on one value; returns False if a violation was reported directly."""
-            cls = classes[c - 1]
-            name = schemas[c - 1]["name"]
-            slim = {"c": c, "class": name, "mode": mode, "pol": pol, "val": val, "label": label}
-            ctx.case((name, mode, pol, json.dumps(val)))
-            inst = S.to_instance(classes, schemas, c, val)
-            if mode == "lib":
-                try:
-                    enc = bytes(inst.encode())
-                except Exception as ex:  # noqa: BLE001
-                    rep.fail("encode() raised", slim, f"{type(ex).__name__}: {ex}")
-                    return None
-            else:
-                enc = S.ref_encode(schemas, c, val, "acc", pol)
-            slim["wire"] = enc
-            try:
-                dec = cls.decode(enc)
-                got = S.from_instance(classes, schemas, c, dec)
-            except S.Unrepresentable as ex:
-                rep.fail("decode() returned a value outside the message type", slim, str(ex))
-                return None
-            except Exception as ex:  # noqa: BLE001
-                rep.fail("decode() raised on a well-formed message", slim, f"{type(ex).__name__}: {ex} on {_short(enc)}")
-                return None
-            recs.append({"c": c, "mode": mode, "pol": pol, "val": val, "enc": list(enc), "dec": got})
+            dec = _record_run(ctx, rep, classes, schemas, recs, c, mode, pol, val, label)
+            if dec is not None:
+                _todict_checks(rep, schemas, idx, c, mode, pol, val, dec, label)
             return dec
 
         real_idx = [k + 1 for k, cl in enumerate(classes) if cl is not None]
@@ -775,16 +928,7 @@ def run(ctx):
                     for nm in ("valid_range", "step_value"):     # their size depends on the format; not part of this check
                         if nm in fnames:
                             val[fnames.index(nm)] = []
-                dec = record(c, "acc", rng.choice(["decl", "rev", "rot"]), val, "random accessory message")
-                if dec is not None and is_sig:
-                    try:
-                        td = dec.to_dict()
-                        want = (f"{int.from_bytes(bytes(val[fnames.index('type')][0]), 'little'):X}", _u16(val[fnames.index("instance_id")][0]))
-                        if (td.get("type"), td.get("iid")) != want:
-                            rep.fail("to_dict() of the decoded characteristic signature shows another type / iid", {"c": c, "val": val},
-                                     f"{(td.get('type'), td.get('iid'))} != {want}")
-                    except Exception as ex:  # noqa: BLE001
-                        rep.fail("to_dict() of the decoded characteristic signature raised", {"c": c, "val": val}, f"{type(ex).__name__}: {ex}")
+                record(c, "acc", rng.choice(["decl", "rev", "rot"]), val, "random accessory message")
         # linked services: every byte value in every position of lists of 1..6 ids (BLE service signature + CoAP service)
         for cname in ("Service", "Pdu09Service"):
             if cname not in idx:
@@ -807,16 +951,7 @@ def run(ctx):
                             val[k_ids] = [ids]
                             if rng.random() < 0.5:
                                 val[0] = [[rng.randrange(8), 0][:fields[0]["w"]] + [0] * (fields[0]["w"] - 2)] if fields[0]["kind"] == "int" else []
-                            dec = record(c, "acc", rng.choice(["decl", "rev"]), val, "linked services")
-                            if dec is not None and cname == "Service":
-                                want = [_u16(x) for x in ids]
-                                try:
-                                    td = dec.to_dict()
-                                    if td.get("linked", []) != want:
-                                        rep.fail("to_dict() of the decoded service signature shows other links", {"c": c, "val": val},
-                                                 f"{td.get('linked')} != {want}")
-                                except Exception as ex:  # noqa: BLE001
-                                    rep.fail("to_dict() of the decoded service signature raised", {"c": c, "val": val}, repr(ex))
+                            record(c, "acc", rng.choice(["decl", "rev"]), val, "linked services")
                 if cnt == 0:
                     val = [[] for _ in fields]
                     val[k_ids] = [[]]
@@ -829,59 +964,11 @@ def run(ctx):
                     for nc in (1, 2, 3):
                         for rep_k in range(ctx.pick(1, 6)):
                             val = _db_value(rng, schemas, idx, na, ns, nc, link_counts=[0, 1, 2, 3, 6])
-                            dec = record(c, "acc", "decl" if rep_k % 2 == 0 else "rev", val, f"database {na}x{ns}x{nc}")
-                            if dec is None:
-                                continue
-                            try:
-                                got = _project_to_dict(dec.to_dict())
-                            except Exception as ex:  # noqa: BLE001
-                                rep.fail("to_dict() of the decoded database raised", {"c": c, "val": val}, f"{type(ex).__name__}: {ex}")
-                                continue
-                            want = _db_projection(schemas, idx, val)
-                            if got != want:
-                                rep.fail("to_dict() of the decoded database differs from the encoded structure", {"c": c, "val": val},
-                                         f"{str(got)[:200]} != {str(want)[:200]}")
+                            record(c, "acc", "decl" if rep_k % 2 == 0 else "rev", val, f"database {na}x{ns}x{nc}")
         rep.flush()
 
-        tf = os.path.join(tmp, "trace.ndjson")
-        with open(tf, "w") as f:
-            for r in recs:
-                f.write(json.dumps(r) + "\n")
+        _trace_check(ctx, rep, tmp, schemas, schema_file, jvm, recs)
         if recs:
-            vf = os.path.join(tmp, "verdicts.ndjson")
-            res = ctx.tlc("codec/TlvStruct_Trace", "TlvStruct_Trace.cfg",
-                          env={"TRACE_FILE": tf, "SCHEMA_FILE": schema_file, "VERDICTS_OUT": vf, **jvm},
-                          expect_violation=True, require_cover=False, workers=4, timeout=1500,
-                          label="trace validation of recorded encode/decode runs")
-            if res.ok:
-                if os.path.exists(vf) and open(vf).read().strip():
-                    raise MachineryError("TlvStruct_Trace accepted every record but exported rejected ones")
-                ctx.trace_ok(len(recs))
-            else:
-                if res.violation["name"] == "InDomain":
-                    raise MachineryError(f"driver produced a value outside the property's domain: {res.violation['trace'][:2000]}")
-                from harness import tlc as T
-                rejected = []
-                if os.path.exists(vf):
-                    rejected = [json.loads(line) for line in open(vf) if line.strip()]
-                if not rejected:                       # fall back to the counterexample TLC printed
-                    ce = T.parse_counterexample(res.violation["trace"])
-                    tid = ce[-1][1].get("tid") if ce else None
-                    if not isinstance(tid, int):
-                        raise MachineryError(f"trace validation failed without a record id: {res.violation['name']}")
-                    rejected = [{"tid": tid, "enc": res.violation["name"] != "EncoderConforms",
-                                 "dec": res.violation["name"] != "DecoderConforms", "rt": res.violation["name"] != "StructRoundTrip"}]
-                for v in rejected:
-                    bad = recs[v["tid"] - 1]
-                    what = " and ".join(w for w, ok in (("wire image differs from the specification's", v["enc"]),
-                                                        ("decoded value differs from the specification's", v["dec"]),
-                                                        ("the specification's own round trip fails for this class", v.get("rt", True))) if not ok)
-                    rep.fail(f"recorded run rejected by TlvStruct_Trace ({what})",
-                             {"c": bad["c"], "class": schemas[bad["c"] - 1]["name"], "mode": bad["mode"], "pol": bad["pol"],
-                              "val": bad["val"], "wire": bytes(bad["enc"]), "dec": bad["dec"]},
-                             f"producer {bad['mode']}, value {str(bad['val'])[:160]}, bytes {_short(bad['enc'])}, decoded {str(bad['dec'])[:160]}")
-                rep.flush()
-                ctx.trace_ok(len(recs) - len(rejected))
             ctx.sample({"trace_record": {k: (v if k not in ("enc",) else _short(v)) for k, v in recs[len(recs) // 2].items()}})
         # ---------------- (C') histories of decode calls on the real code -> TlvStructHist_Trace
         hrecs = []
@@ -894,56 +981,19 @@ def run(ctx):
                     continue                       # (packed id lists: separate, recorded finding)
                 if mode == "lib" and not S.ref_encode(schemas, c, val, "lib"):
                     continue
-                wire = S.ref_encode(schemas, c, val, mode, "decl")
-                slim = {"c": c, "class": schemas[c - 1]["name"], "mode": mode, "pol": "decl", "val": val, "wire": wire}
                 ctx.case(("history", schemas[c - 1]["name"], json.dumps(val)))
-                try:
-                    hrecs.append({"c": c, "wire": list(wire), "ops": _history(rng, classes, schemas, c, wire, rng.randrange(1, 4)),
-                                  "slim": slim})
-                except Exception as ex:  # noqa: BLE001
-                    rep.fail("decode / write / decode history raised", slim, f"{type(ex).__name__}: {ex}")
+                r = _random_history(ctx, rep, classes, schemas, c, mode, val, f"{ctx.seed}/hist/{c}/{len(hrecs)}/{rng.random()}")
+                if r:
+                    hrecs.append(r)
         if "Pdu09Database" in idx:
             for na, ns, nc in ((2, 2, 2), (2, 1, 1), (3, 1, 2), (2, 2, 3), (3, 2, 1))[:ctx.pick(3, 5)]:
-                for _ in range(ctx.pick(1, 4)):
-                    r = _bridge_history(ctx, rep, rng, classes, schemas, idx, na, ns, nc)
+                for k in range(ctx.pick(1, 4)):
+                    r = _bridge_history(ctx, rep, f"{ctx.seed}/bridge/{na}{ns}{nc}/{k}", classes, schemas, idx, na, ns, nc)
                     if r:
-                        r["slim"] = {"c": r["c"], "class": "Pdu09Database (bridge)", "mode": "acc", "pol": "decl",
-                                     "val": _bridge_value(rng, schemas, idx, 1, 1, 1), "wire": bytes(r["wire"])}
                         hrecs.append(r)
         rep.flush()
-        if hrecs:
-            hf = os.path.join(tmp, "hist.ndjson")
-            hv = os.path.join(tmp, "hist_verdicts.ndjson")
-            with open(hf, "w") as f:
-                for r in hrecs:
-                    f.write(json.dumps({"c": r["c"], "wire": r["wire"], "ops": r["ops"]}) + "\n")
-            res = ctx.tlc("codec/TlvStructHist_Trace", "TlvStructHist_Trace.cfg",
-                          env={"TRACE_FILE": hf, "SCHEMA_FILE": schema_file, "VERDICTS_OUT": hv, **jvm},
-                          expect_violation=True, require_cover=False, workers=4, timeout=1500,
-                          label="trace validation of decode histories")
-            bad = [json.loads(line) for line in open(hv) if line.strip()] if os.path.exists(hv) else []
-            if res.ok:
-                if bad:
-                    raise MachineryError("TlvStructHist_Trace accepted every history but exported rejected ones")
-                ctx.trace_ok(len(hrecs))
-            else:
-                if not bad:
-                    from harness import tlc as T
-                    ce = T.parse_counterexample(res.violation["trace"])
-                    tid = ce[-1][1].get("tid") if ce else None
-                    if not isinstance(tid, int):
-                        raise MachineryError(f"history validation failed without a record id: {res.violation['name']}")
-                    bad = [{"tid": tid, "bad": 0}]
-                for v in bad:
-                    r = hrecs[v["tid"] - 1]
-                    upto = [op if op[0] != "O" else ["O", op[1], "..."] for op in r["ops"][:max(v["bad"], 1)]]
-                    seen = r["ops"][v["bad"] - 1][2] if v["bad"] else None
-                    rep.fail("decode history rejected by TlvStructHist_Trace (what is read through a result is not the decoded value "
-                             "plus the writes made through that result)", r["slim"],
-                             f"history {json.dumps(upto)[:500]}; observed {json.dumps(seen)[:300]}")
-                rep.flush()
-                ctx.trace_ok(len(hrecs) - len(bad))
-            ctx.notes["decode_histories"] = len(hrecs)
+        _hist_check(ctx, rep, tmp, schema_file, jvm, hrecs)
+        ctx.notes["decode_histories"] = len(hrecs)
         ctx.exhaustive = False
     finally:
         shutil.rmtree(tmp, ignore_errors=True)
@@ -981,26 +1031,97 @@ def _dups(s):
 
 
 def _replay_file(ctx):
-    """./check C16 --replay <file>: run the stored case (value + wire image prescribed by the specification) again."""
+    """./check C16 --replay <file>: execute the stored case again on the tree under test.
+
+    TLC-exported cases are replayed with the wire image the specification prescribed; executions of the seeded driver
+    (random values, decode histories, bridge databases) are repeated from the stored value / seed, the expected bytes are
+    recomputed by the reference encoder and the FRESH records are validated by TLC (TlvStruct_Trace / TlvStructHist_Trace)."""
     data = json.load(open(ctx.replay))["replay"]
-    if data.get("kind") != "struct_case":
-        print("replay: this file holds a TLC counterexample on the schemas of the real classes; run ./check C16 to re-check it")
-        return
-    schemas, case = data["schemas"], data["case"]
-    if any(s["name"].startswith("aiohomekit.") for s in schemas):
+    jvm = {"JDK_JAVA_OPTIONS": "-Xss64m"}
+    tmp = tempfile.mkdtemp(prefix="c16_")
+    try:
         found, _ = S.discover()
-        byname = {S._qual(c): c for c in found}
-        classes = [byname.get(s["name"]) for s in schemas]
-    else:
-        classes = S.build_toy_classes(schemas)
-    case = dict(case)
-    wire = case.get("wire")
-    case["wire"] = list(bytes.fromhex(wire["hex"])) if isinstance(wire, dict) else list(wire or S.ref_encode(schemas, case["c"], case["val"], case["mode"], case["pol"]))
-    rep = _Reporter(ctx, schemas)
-    if classes[case["c"] - 1] is None:
-        print("replay: class not present in this tree (or a synthetic array wrapper); run ./check C16")
-        return
-    _replay(ctx, rep, classes, schemas, case)
-    print(f"replay: {schemas[case['c'] - 1]['name']} mode={case['mode']} value={str(case['val'])[:200]} -> "
-          f"{'VIOLATION' if rep.groups else 'ok'}")
-    rep.flush()
+        cur_schemas, _notes = S.schemas_of(found)
+        if data.get("kind") != "struct_case":
+            # a TLC counterexample on the schemas of the real classes: model-check the schemas of THIS tree again
+            schema_file = os.path.join(tmp, "schemas.ndjson")
+            with open(schema_file, "w") as f:
+                for sc in cur_schemas:
+                    f.write(json.dumps(sc) + "\n")
+            out = os.path.join(tmp, "real.ndjson")
+            res = ctx.tlc("codec/TlvStruct_Cases", "TlvStruct_Cases_quick.cfg", env={"CASES_OUT": out, "SCHEMA_FILE": schema_file, **jvm},
+                          workers=4, label="replay: real schemas of this tree", timeout=1500, expect_violation=True)
+            if not res.ok:
+                _report_spec_violation(ctx, res, cur_schemas)
+            print(f"replay: TlvStruct_Cases model-checked on the schemas of this tree -> {'VIOLATION' if not res.ok else 'ok'}")
+            return
+        schemas, case = data["schemas"], dict(data["case"])
+        real = any(sc["name"].startswith("aiohomekit.") for sc in schemas)
+        if real:
+            byname = {S._qual(c): c for c in found}
+            classes = [byname.get(sc["name"]) for sc in schemas]
+            cur = {sc["name"]: sc for sc in cur_schemas}
+            for k, sc in enumerate(schemas):            # field layout must be the one the stored value was made for
+                if classes[k] is not None and [f["name"] for f in cur[sc["name"]]["fields"]] != [f["name"] for f in sc["fields"]]:
+                    print(f"replay: {sc['name']} has other fields in this tree; the stored value cannot be rebuilt")
+                    return
+        else:
+            classes = S.build_toy_classes(schemas)
+        schema_file = os.path.join(tmp, "schemas.ndjson")
+        with open(schema_file, "w") as f:
+            for sc in schemas:
+                f.write(json.dumps(sc) + "\n")
+        idx = {sc["name"].rsplit(".", 1)[-1]: k + 1 for k, sc in enumerate(schemas)}
+        rep = _Reporter(ctx, schemas)
+        c, val = case["c"], case["val"]
+        mode, pol = case.get("mode", "acc"), case.get("pol", "decl")
+        src = case.get("src") or {}
+        name = schemas[c - 1]["name"]
+        wire = case.get("wire")
+        stored_wire = bytes.fromhex(wire["hex"]) if isinstance(wire, dict) else (bytes(wire) if wire is not None else None)
+        if "bridge" in src:
+            na, ns, nc = src["bridge"]
+            r = _bridge_history(ctx, rep, src["bseed"], classes, schemas, idx, na, ns, nc)
+            rep.flush()
+            _hist_check(ctx, rep, tmp, schema_file, jvm, [r] if r else [])
+            print(f"replay: get_accessory_info on the bridge database {na}x{ns}x{nc} (seed {src['bseed']}) executed again on this tree, "
+                  f"fresh history validated by TlvStructHist_Trace -> {'VIOLATION' if ctx.violations else 'ok'}")
+            return
+        array_wrappers = {}
+        for k, sc in enumerate(schemas, start=1):
+            if sc["name"].startswith("array-characteristic:"):
+                inner = sc["fields"][0]["inner"]
+                array_wrappers[k] = (sc["name"].split(":", 1)[1], classes[inner - 1])
+        structs = _struct_characteristics([cl for cl in classes if cl is not None]) if real else {}
+        struct_chars = {classes.index(cl) + 1: uses for cl, uses in structs.items() if cl in classes}
+        char_access = _make_char_access(ctx, rep, classes, schemas, array_wrappers, struct_chars) if real else None
+        driver = case.get("origin") == "driver" or stored_wire is None or "mode" not in case
+        if driver:
+            # the stored bytes are what the tree that produced the file wrote; the expectation is the reference encoding
+            exp_wire = S.ref_encode(schemas, c, val, mode, pol)
+            how = "driver execution repeated; expected bytes from the reference encoder"
+        else:
+            exp_wire = stored_wire
+            how = "TLC-exported case; wire image prescribed by the specification"
+        if classes[c - 1] is None and c not in array_wrappers:
+            print("replay: class not present in this tree; nothing to execute")
+            return
+        _replay(ctx, rep, classes, schemas, {"c": c, "mode": mode, "pol": pol, "val": val, "wire": list(exp_wire)}, extra=char_access)
+        if classes[c - 1] is not None and (driver or "history" in src):
+            recs = []
+            grp = dict(rep.groups)
+            rep.groups = {}
+            dec = _record_run(ctx, rep, classes, schemas, recs, c, mode, pol, val, "replay")
+            if dec is not None:
+                _todict_checks(rep, schemas, idx, c, mode, pol, val, dec, case.get("label") or "")
+            rep.groups = {**rep.groups, **grp}
+            _trace_check(ctx, rep, tmp, schemas, schema_file, jvm, recs)
+            hseed = src.get("history") or f"{ctx.seed}/replay-history"
+            r = _random_history(ctx, rep, classes, schemas, c, mode, val, hseed) if not rep._has_ids(c, val) else None
+            _hist_check(ctx, rep, tmp, schema_file, jvm, [r] if r else [])
+            how += "; fresh record validated by TlvStruct_Trace, fresh decode history by TlvStructHist_Trace"
+        rep.flush()
+        print(f"replay: {name} mode={mode} value={str(val)[:160]} executed again on this tree ({how}) -> "
+              f"{'VIOLATION' if ctx.violations else 'ok'}")
+    finally:
+        shutil.rmtree(tmp, ignore_errors=True)
